@@ -26,7 +26,7 @@ claim("C02", RM + "reference-model oracle on Trace.get_trace(rank)['index_correl
       "Trusted: hv/ref/raw.py::link_oracle (documented side rule), hv/wf.py regime predicate, G-sim generator.", "DESIGN.md §5 C02")
 claim("C03", RM + "reference-model oracle over CallStackGraph.get_nodes() of both builders and the parent/depth columns of both CallGraph classes; tie-class histogram of the inputs gates inconclusive; K1 attribution test for the recorded finding",
       "Exploration (+ exhaustive enumeration of all laminar families of <= 3 spans over 0..2 in quick, <= 4 over 0..3 in thorough): parents, depths, children lists and zero-duration placement are recomputed pairwise from the spans.",
-      "Trusted: the pairwise innermost-enclosing oracle in hv/props/c03.py; K1 (zero-duration event where one span ends and another begins) is a recorded known finding, recognised only through the attribution test.", "DESIGN.md §5 C03")
+      "Trusted: the pairwise innermost-enclosing oracle in hv/props/c03.py; K1 (zero-duration event where one span ends and another begins) and K4 (the builder behind critical-path analysis loses a host thread that shares its (pid, tid) pair with a device stream) are recorded known findings, recognised only through their attribution data.", "DESIGN.md §5 C03")
 claim("C08", RM + "edge logger wrapped around CPGraph._add_edge_helper + offline checker of the finished graph (own acyclicity check, expected node set, host call-stack chain, edge type discipline, weight rule) against a reference computed from raw events and G-sim ground truth",
       "Exploration: hundreds/thousands of critical-path graphs built by the real analysis on simulated causally consistent traces over many windows and both launch-edge settings; every edge of every graph is judged.",
       "Trusted: hv/ref/cp.py, hv/ref/load.py, hv/wf.py (regime), G-sim ground truth for synchronisation relations. Event-sync / stream-wait edges are not produced in this environment (DESIGN O1).", "DESIGN.md §5 C08")
@@ -78,7 +78,7 @@ claim("C19", RM + "state comparison after 1-3 CPGraph.save -> restore_cpgraph cy
       "Trusted: Python equality of dataclasses / frames up to row order.", "DESIGN.md §5 C19")
 claim("C20", RM + "offline checker over the files written (counters, overlay in every option combination, multi-step sequences from one object, write/read/update_trace_rank, rank discovery) against the source events and the graph's critical path / drawn edges",
       "Exploration over simulated and structural traces in both file formats.",
-      "Trusted: json/gzip modules; analysed events carry an args object.", "DESIGN.md §5 C20")
+      "Trusted: json/gzip modules; analysed events carry an args object. Written files are read the way their names say (.gz: gzip, otherwise JSON text). K5 (rank discovery reads an event argument named rank that precedes the metadata) is a recorded known finding.", "DESIGN.md §5 C20")
 
 NOT_YET = "check not built yet in this session (work in progress; see DESIGN.md §5 for the planned monitor)"
 
